@@ -1,5 +1,5 @@
 # Ids of traced operations (py dispatchers), shared by gen_contracts.py and gen_vm_contracts.py (C01).
 NAMES = ("Add IAdd Sub ISub Mul IMul TrueDiv ITrueDiv FloorDiv IFloorDiv Mod IMod Lshift ILshift Rshift IRshift "
          "And IAnd Xor IXor Or IOr Pow IPow Gt Ge Lt Le Eq Ne Neg Pos Abs Invert Not Iter GetItem SetItem DelItem "
-         "GetAttrString SetAttrString DeleteAttrString Repr NewModule RunCode ModuleInit RunFile Iterate GetDict").split()
+         "GetAttrString SetAttrString DeleteAttrString Repr NewModule RunCode ModuleInit RunFile Iterate GetDict MakeBool").split()
 OPID = {n: i + 1 for i, n in enumerate(NAMES)}
